@@ -41,6 +41,7 @@ typedef struct {
     int id, tp, prio, place, sleep_us, nchild, np, parent, rank, rep; /* rep: some tile repeated in this task */
     int tile[MAXP], mode[MAXP], pfl[MAXP], epoch[MAXP];
     int taint;                 /* index into taint strings: reads data influenced by a repeated-tile task */
+    parsec_dtd_tile_t *h[MAXP]; /* tile handles of a nested task, resolved by the main thread when its parent is inserted */
 } task_t;
 typedef struct { int kind, a, n; int *tiles; int64_t *pyexp; } op_t;
 typedef struct { int tp, kind, owner, lidx; parsec_dtd_tile_t *nt; int nt_retained; } tile_t;
@@ -134,8 +135,11 @@ static void insert_task(task_t *t) {
     parsec_dtd_tile_t *tl[MAXP] = {0}; int fl[MAXP] = {0};
     int prank = t->place >= 0 ? t->place % world : 0;
     int pflag = PARSEC_VALUE | (t->place >= 0 ? PARSEC_AFFINITY : 0);
+    /* the tile table of a collection is not thread safe (nolock find): only the main thread looks tiles up; the
+     * handles of the tasks a task will insert are resolved here, before that task can run */
+    for (int c = 1; c <= t->nchild; c++) for (int k = 0; k < T[t->id + c].np; k++) T[t->id + c].h[k] = tile_handle(T[t->id + c].tile[k]);
     for (int k = 0; k < t->np; k++) {
-        tl[k] = tile_handle(t->tile[k]);
+        tl[k] = t->parent >= 0 ? t->h[k] : tile_handle(t->tile[k]);
         fl[k] = pmode[t->mode[k]] | TILE_FULL;
         if (t->place < 0 && k == -1 - t->place) fl[k] |= PARSEC_AFFINITY;
         if (t->pfl[k] & PF_DONT_TRACK) fl[k] |= PARSEC_DONT_TRACK;
